@@ -507,6 +507,82 @@ func (e *Exec) ApplyOp(tx *bolt.Tx, w *model.Bucket, op Op, writable bool) {
 		}
 	case "cursor":
 		e.runCursor(tx, rb, mb, isRoot, op, writable)
+	case "cdel":
+		// position a cursor on key with Seek, then Cursor.Delete
+		if isRoot {
+			return
+		}
+		c := rb.Cursor()
+		k, _ := c.Seek(key)
+		if k == nil || !bytes.Equal(k, key) {
+			// not positioned on the key: nothing to delete (the model agrees it is absent)
+			if en := mb.M[string(key)]; en != nil {
+				e.fail("C05", "cursor-key", "%s: Seek did not find the existing key (returned %s)", what, model.Q(k))
+			}
+			return
+		}
+		var allowed []error
+		allowed = append(allowed, notW...)
+		en := mb.M[string(key)]
+		if en == nil {
+			e.fail("C05", "cursor-key", "%s: Seek found a key the model does not have", what)
+			return
+		}
+		if en.B != nil {
+			allowed = append(allowed, berrors.ErrIncompatibleValue)
+		}
+		if e.expectErr(what, c.Delete(), allowed) {
+			delete(mb.M, string(key))
+		}
+	case "feb":
+		var got []string
+		var err error
+		if isRoot {
+			err = tx.ForEach(func(name []byte, _ *bolt.Bucket) error { got = append(got, string(name)); return nil })
+		} else {
+			err = rb.ForEachBucket(func(k []byte) error { got = append(got, string(k)); return nil })
+		}
+		if err != nil {
+			e.fail("C04", "unexpected-error", "%s returned %v", what, err)
+			return
+		}
+		var want []string
+		for _, k := range mb.Keys() {
+			if mb.M[k].B != nil {
+				want = append(want, k)
+			}
+		}
+		if strings.Join(got, "\x00") != strings.Join(want, "\x00") {
+			e.fail("C04", "foreach-mismatch", "%s lists %d nested buckets %q, model expects %d %q", what, len(got), got, len(want), want)
+		}
+	case "inspect":
+		if !isRoot {
+			return
+		}
+		var cmp func(bs bolt.BucketStructure, m *model.Bucket, path string)
+		cmp = func(bs bolt.BucketStructure, m *model.Bucket, path string) {
+			keyN := 0
+			var names []string
+			for _, k := range m.Keys() {
+				if m.M[k].B != nil {
+					names = append(names, k)
+				} else {
+					keyN++
+				}
+			}
+			if bs.KeyN != keyN || len(bs.Children) != len(names) {
+				e.fail("C04", "inspect-mismatch", "Inspect at %s: keyN=%d children=%d, model expects %d and %d", path, bs.KeyN, len(bs.Children), keyN, len(names))
+				return
+			}
+			for i, ch := range bs.Children {
+				if ch.Name != names[i] {
+					e.fail("C04", "inspect-mismatch", "Inspect at %s: child %d is %q, model expects %q", path, i, ch.Name, names[i])
+					return
+				}
+				cmp(ch, m.M[names[i]].B, path+ch.Name+"/")
+			}
+		}
+		cmp(tx.Inspect(), mb, "/")
 	}
 }
 
@@ -775,7 +851,9 @@ func (e *Exec) RunTx(t *Txn) {
 	if e.capture != nil {
 		*e.capture = w
 	}
+	handlerCalls := 0
 	body := func(tx *bolt.Tx) {
+		tx.OnCommit(func() { handlerCalls++ })
 		if writable {
 			if tx.ID() != e.LastTxid+1 {
 				e.fail("C03", "txid", "write transaction id %d, expected %d", tx.ID(), e.LastTxid+1)
@@ -871,6 +949,14 @@ func (e *Exec) RunTx(t *Txn) {
 			if rerr := tx.Rollback(); rerr != nil {
 				e.fail("C04", "unexpected-error", "Rollback returned %v", rerr)
 			}
+		}
+	}
+	if writable && !e.Failed() {
+		switch {
+		case committed && handlerCalls != 1:
+			e.fail("C03", "oncommit", "the OnCommit handler ran %d times for a committed transaction", handlerCalls)
+		case !committed && handlerCalls != 0:
+			e.fail("C03", "oncommit", "the OnCommit handler ran %d times for a transaction that did not commit", handlerCalls)
 		}
 	}
 	e.LastCommitOK = committed
